@@ -1,5 +1,7 @@
 package multiplex
 
+import "sync"
+
 // C10: multiplexed connections deliver each stream complete, in order and isolated.
 
 // H_C10_framing: one Write of arbitrary length 0..3*max+5 on an arbitrary connection id produces
@@ -107,5 +109,72 @@ func H_C10_pipe() {
 		cover("same-id")
 	} else {
 		cover("different-ids")
+	}
+}
+
+// H_C10_concurrent_writers: two goroutines write concurrently through one mux, on different connection ids,
+// payloads of arbitrary lengths (the first up to max+3, i.e. possibly two frames; the second up to max); the
+// trunk's Write is atomic per call and a scheduling point, as on a socket. Whatever the interleaving, the
+// trunk stream is a sequence of complete frames - every header immediately followed by its own payload -
+// and the payload bytes recorded for an id are, in order, exactly the bytes its writer passed.
+//verif:property C10
+//verif:symbytes
+//verif:preempt 2
+//verif:expect-cover two-frames three-frames
+func H_C10_concurrent_writers() {
+	t := &envTrunk{mu: &sync.Mutex{}}
+	m := rawMux(t, 4)
+	ida, idb := ConnID(nondetUint32()), ConnID(nondetUint32())
+	assume(ida != idb)
+	L1, L2 := symPayloadLen(maxPayloadSize+3), symPayloadLen(maxPayloadSize)
+	p1, p2 := nondetBytes(L1), nondetBytes(L2)
+	var wg sync.WaitGroup
+	var n1, n2 int
+	var e1, e2 error
+	wg.Add(2)
+	go func() {
+		n1, e1 = m.write(ida, p1)
+		wg.Done()
+	}()
+	go func() {
+		n2, e2 = m.write(idb, p2)
+		wg.Done()
+	}()
+	wg.Wait()
+	vassert(e1 == nil && e2 == nil, "write-error")
+	vassert(n1 == L1 && n2 == L2, "write-count")
+	vassert(len(t.writes)%2 == 0, "frame-structure")
+	if len(t.writes)%2 != 0 {
+		return
+	}
+	j := nondetInt()
+	assume(j >= 0)
+	tot1, tot2 := 0, 0
+	for k := 0; k+1 < len(t.writes); k += 2 {
+		hdr, pl := t.writes[k], t.writes[k+1]
+		vassert(len(hdr) == headerLen, "header-followed-by-something-else")
+		if len(hdr) != headerLen {
+			return
+		}
+		id := ConnID(be32(hdr[0:4]))
+		vassert(int(be32(hdr[4:8])) == len(pl), "header-not-followed-by-its-payload")
+		vassert(id == ida || id == idb, "frame-for-unknown-connection")
+		if id == ida {
+			if j >= tot1 && j < tot1+len(pl) && j < L1 {
+				vassert(pl[j-tot1] == p1[j], "bytes-of-another-writer-in-the-stream")
+			}
+			tot1 += len(pl)
+		} else if id == idb {
+			if j >= tot2 && j < tot2+len(pl) && j < L2 {
+				vassert(pl[j-tot2] == p2[j], "bytes-of-another-writer-in-the-stream")
+			}
+			tot2 += len(pl)
+		}
+	}
+	vassert(tot1 == L1 && tot2 == L2, "stream-incomplete")
+	if len(t.writes) == 4 {
+		cover("two-frames")
+	} else if len(t.writes) == 6 {
+		cover("three-frames")
 	}
 }
